@@ -192,25 +192,29 @@ func (s *seqRun) fillTo(k uint64) bool {
 func (s *seqRun) nospcScenarios(h int) {
 	// a multi-block WRITE / a READ of a hole that runs out of space exactly where it needs a new index block
 	for _, k := range []uint64{1, 2} {
-		for variant := 0; variant < 4 && !s.dead; variant++ {
+		for variant := 0; variant < 6 && !s.dead; variant++ {
 			tag := fmt.Sprintf("history %d nospc-crossing k=%d variant=%d", h, k, variant)
 			a := s.mk("create", s.root(), "a")
 			if a == nil {
 				return
 			}
 			first := uint64(8) // the indirect block is needed from block 8 on
-			if variant >= 2 {
+			if variant == 2 || variant == 3 || variant == 5 {
 				first = 8 + 512 // the double-indirect root and a second-level block from here on
 			}
-			if variant%2 == 0 {
+			// variants 0, 2: a WRITE that extends the file; 1, 3: a READ of a hole; 4, 5: a WRITE
+			// INSIDE a size set by SETATTR (neither the size nor ShrinkSize changes)
+			inside := variant >= 4
+			if variant%2 == 0 || inside {
 				// WRITE: blocks first-1 (exists) and first (needs the index block(s) and a data block)
 				if first == 8 {
 					s.opWrite(a, 0, 8*4096, 2, s.mkData(8*4096))
 				} else {
 					s.opWrite(a, (first-1)*4096, 4096, 2, s.mkData(4096))
 				}
-			} else {
-				// READ of a hole inside the file
+			}
+			if variant%2 == 1 || inside {
+				// a hole inside the file
 				sz := (first + 4) * 4096
 				s.opSetattr(a, &sz, timeHow{}, timeHow{})
 			}
@@ -218,7 +222,7 @@ func (s *seqRun) nospcScenarios(h int) {
 				s.deleteTree(s.root())
 				continue
 			}
-			if variant%2 == 0 {
+			if variant%2 == 0 || inside {
 				s.opWrite(a, (first-1)*4096, 2*4096, 2, s.mkData(2*4096))
 			} else {
 				s.opRead(a, first*4096, 4096)
